@@ -4,10 +4,24 @@
 import os
 from typing import Optional
 
-from antlr4 import FileStream, CommonTokenStream
+from antlr4 import FileStream, CommonTokenStream, Token
+from antlr4.error.ErrorListener import ErrorListener
 from .mal_lexer import malLexer
 from .mal_parser import malParser
 from .mal_visitor import malVisitor
+from ...exceptions import MalSyntaxError
+
+
+class _RaisingErrorListener(ErrorListener):
+    """Reject malformed source: every syntax error reported by the lexer or
+    the parser is raised instead of being printed and recovered from."""
+
+    def __init__(self, malfile):
+        super().__init__()
+        self.malfile = malfile
+
+    def syntaxError(self, recognizer, offendingSymbol, line, column, msg, e):
+        raise MalSyntaxError(f"{self.malfile}:{line}:{column}: {msg}")
 
 
 class MalCompiler:
@@ -26,13 +40,25 @@ class MalCompiler:
         self.current_file = os.path.basename(malfile)
 
         try:
-            input_stream = FileStream(
-                os.path.join(self.path, self.current_file), encoding="utf-8"
-            )
+            malfile = os.path.join(self.path, self.current_file)
+            input_stream = FileStream(malfile, encoding="utf-8")
+            error_listener = _RaisingErrorListener(malfile)
             lexer = malLexer(input_stream)
+            lexer.removeErrorListeners()
+            lexer.addErrorListener(error_listener)
             stream = CommonTokenStream(lexer)
             parser = malParser(stream)
+            parser.removeErrorListeners()
+            parser.addErrorListener(error_listener)
             tree = parser.mal()
+
+            # The `mal` rule does not end in EOF: the parser can stop in
+            # front of input that starts no declaration without an error.
+            if (token := stream.LT(1)).type != Token.EOF:
+                raise MalSyntaxError(
+                    f"{malfile}:{token.line}:{token.column}: "
+                    f"unexpected input '{token.text}'"
+                )
 
             return malVisitor(compiler=self).visit(tree)
         finally:
